@@ -353,6 +353,39 @@ class Function:
         reach = self.flow(starts, cut_roots=via_roots, cut_edges=via_edges)
         return not any(t in reach for t in targets)
 
+    def known_flag_edges(self, start):
+        """infeasible branch edges, given that execution is at `start`: for a local flag
+        tested as `if (flag)` / `if (!flag)`, when exactly one constant assignment of the flag
+        lies on every path to `start` and no assignment is reachable from `start`, the
+        flag's value is known and the other edge cannot be taken.  (Path sensitivity for the
+        repo's `closeDstFile = 1; ... if (closeDstFile)` idiom.)"""
+        out = set()
+        reach = self.flow([start])
+        for bid, cond, t, fl in self.branches():
+            c = strip_casts(self.resolve_x(cond))
+            neg = False
+            while c is not None and c.get("k") == "un" and c.get("op") == "!":
+                c = strip_casts(c["e"])
+                neg = not neg
+            if c is None or c.get("k") != "ref" or c.get("rk") not in ("l", "sl"):
+                continue
+            name = c["n"]
+            asg = []
+            for b, i, r in self.roots():
+                for x in walk(r):
+                    if x.get("k") == "asg" and strip_casts(x["lhs"]).get("k") == "ref" and strip_casts(x["lhs"]).get("n") == name:
+                        asg.append((b, i, x))
+            if any((b, i) in reach for b, i, x in asg):
+                continue
+            dom = [(b, i, x) for b, i, x in asg if x.get("op") == "=" and const_val(x["rhs"]) is not None
+                   and self.must_pass(via_roots=[(b, i)], targets=[start])]
+            if len(dom) != 1:
+                continue
+            val = const_val(dom[0][2]["rhs"])
+            truth = (val != 0) != neg
+            out.add((bid, fl if truth else t))
+        return out
+
     def reaches_exit_blocks(self):
         return self.preds().get(self.exit, [])
 
@@ -371,7 +404,10 @@ class Function:
                     k = n.get("k")
                     if k == "decl":
                         for v in n.get("vars", []):
-                            d[v["n"]].append(v.get("init"))
+                            if v.get("init") is not None:
+                                d[v["n"]].append(v.get("init"))
+                            else:
+                                d.setdefault(v["n"], d[v["n"]])   # declared without a value: not a definition
                     elif k == "asg":
                         lhs = strip_casts(n["lhs"])
                         if lhs.get("k") == "ref" and lhs.get("rk") in ("l", "sl"):
